@@ -101,6 +101,7 @@ func (d *Doc) FeatureList() []string {
 // Options steer the generator.
 type Options struct {
 	Malformed bool // allow unclosed / mis-nested markup (repaired unambiguously by HTML5 parsing)
+	XHTML     bool // well-formed XML serialisation (EPUB content document): implies !Malformed, only XML-safe character references
 	MaxDepth  int  // container nesting (default 4)
 	Blocks    int  // body-level blocks (default random 4..14)
 }
@@ -155,6 +156,12 @@ var entitySamples = [][2]string{
 	{"naïve", "naïve"}, {"日本語", "日本語"}, {"1 < 2", "1 < 2"}, {"3 > 2", "3 > 2"},
 	{"&laquo;x&raquo;", "«x»"}, {"&frac12;", "½"}, {"&#0169;", "©"}, {"&#x000A9;", "©"}, {"&zwj;", "‍"}, {"&lt;3&gt;", "<3>"},
 }
+
+// xmlSafe marks the samples that mean the same in an XML parser without DTD.
+var xmlSafe = map[string]bool{"&amp;": true, "&lt; 3": true, "&gt;": true, "&quot;": true, "&#39;": true, "&apos;": true,
+	"caf&#233;": true, "caf&#xE9;": true, "&#x1F600;": true, "&#128512;": true, "a&#160;b": true, "&#x20AC;5": true,
+	"&amp;amp;": true, "&amp;lt;b&amp;gt;": true, "&#38;": true, "&#x26;#x26;": true, "AT&amp;T": true, "&lt;=&gt;": true,
+	"naïve": true, "日本語": true, "3 > 2": true, "&#0169;": true, "&#x000A9;": true, "&lt;3&gt;": true}
 
 // class / id names. vocab = names the usual boilerplate patterns are meant to
 // match; near = look-alikes; safe = unrelated.
@@ -225,6 +232,9 @@ func (g *gen) inline(u *Unit, sp inlineSpec) []*node {
 	for i := 0; i < n; i++ {
 		if g.chance(0.18) {
 			e := entitySamples[g.r.Intn(len(entitySamples))]
+			for g.opt.XHTML && !xmlSafe[e[0]] {
+				e = entitySamples[g.r.Intn(len(entitySamples))]
+			}
 			ps = append(ps, piece{raw: e[0], dec: e[1]})
 			g.feat("entity")
 			switch {
@@ -388,6 +398,9 @@ func (g *gen) noise(inline bool) *node {
 			`window.dataLayer=[{"page":"%s"}];/* <div class="menu">%s</div> */`,
 			`{"@type":"Article","headline":"%s","x":"%s &amp; more"}`,
 		}[g.r.Intn(3)]
+		if g.opt.XHTML {
+			body = `var t = "%s"; var u = "%s";`
+		}
 		n := el("script")
 		if strings.HasPrefix(body, "{") {
 			n.with("type", "application/ld+json")
@@ -400,11 +413,17 @@ func (g *gen) noise(inline bool) *node {
 		u.Decoded = u.Token
 		n := el("style")
 		n.raw = fmt.Sprintf(`.menu > li { color: red } /* %s */ p::before { content: "%s <b>" }`, u.Token, u.Token)
+		if g.opt.XHTML {
+			n.raw = fmt.Sprintf(`.menu li { color: red } /* %s */ p::before { content: "%s" }`, u.Token, u.Token)
+		}
 		return n
 	default:
 		u := g.newUnit("comment", Noise)
 		g.feat("noise:comment")
 		u.Decoded = u.Token
+		if g.opt.XHTML {
+			return &node{tag: "!", raw: fmt.Sprintf(" %s p %s ", u.Token, u.Token)}
+		}
 		return &node{tag: "!", raw: fmt.Sprintf(" %s <p>%s</p> ", u.Token, u.Token)}
 	}
 }
@@ -726,7 +745,10 @@ func (g *gen) linkBlock(depth int) *node {
 		for i, n := 0, g.between(2, 7); i < n; i++ {
 			u := g.newUnit("a", Loose)
 			if i > 0 {
-				sp := [][2]string{{" | ", " | "}, {" ", " "}, {"\n", "\n"}, {" &middot; ", " · "}}[g.r.Intn(4)]
+				sp := [][2]string{{" | ", " | "}, {" ", " "}, {"\n", "\n"}, {" &middot; ", " · "}, {" &#183; ", " · "}}[g.r.Intn(4)]
+				if g.opt.XHTML && sp[0] == " &middot; " {
+					sp[0] = " &#183; "
+				}
 				d.kids = append(d.kids, &node{raw: sp[0], dec: sp[1]})
 			}
 			kids := g.inline(u, inlineSpec{words: g.between(0, 2), noNoise: true})
@@ -886,8 +908,15 @@ func Generate(r *rand.Rand, tk *fw.Tokens, opt Options) *Doc {
 		opt.MaxDepth = 4
 	}
 	g := &gen{r: r, tk: tk, opt: opt, d: &Doc{Features: map[string]bool{}, chains: map[string]string{}}}
-	g.quirk = g.chance(0.1)
-	g.upper = g.chance(0.1)
+	if opt.XHTML {
+		opt.Malformed = false
+		g.opt.Malformed = false
+	}
+	g.quirk = g.chance(0.1) && !opt.XHTML
+	g.upper = g.chance(0.1) && !opt.XHTML
+	if opt.XHTML {
+		g.feat("xhtml")
+	}
 	n := opt.Blocks
 	if n == 0 {
 		n = g.between(4, 14)
@@ -1296,6 +1325,8 @@ func (g *gen) writeAttrs(b *bytes.Buffer, n *node) {
 			}
 		}
 		switch {
+		case g.opt.XHTML:
+			fmt.Fprintf(b, ` %s="%s"`, k, a.v)
 		case simple && g.chance(0.3):
 			fmt.Fprintf(b, " %s=%s", k, a.v)
 		case g.chance(0.2) && !strings.Contains(a.v, "'"):
@@ -1332,7 +1363,7 @@ func (g *gen) write(b *bytes.Buffer, n *node, flat *strings.Builder) {
 	if !n.omitStart {
 		b.WriteString("<" + g.tagName(n.tag))
 		g.writeAttrs(b, n)
-		if voidTags[n.tag] && g.chance(0.3) {
+		if voidTags[n.tag] && (g.opt.XHTML || g.chance(0.3)) {
 			b.WriteString(g.pick([]string{"/", " /"}))
 		}
 		b.WriteString(">")
@@ -1364,7 +1395,9 @@ func (g *gen) serialize(body *node) {
 	}
 	var b bytes.Buffer
 	var flat strings.Builder
-	if !g.quirk {
+	if g.opt.XHTML {
+		b.WriteString("<?xml version=\"1.0\" encoding=\"UTF-8\"?>\n<!DOCTYPE html>\n")
+	} else if !g.quirk {
 		b.WriteString(g.pick([]string{"<!DOCTYPE html>", "<!doctype html>", "<!DOCTYPE html>\n"}))
 	} else {
 		g.feat("no-doctype")
@@ -1386,15 +1419,23 @@ func (g *gen) serialize(body *node) {
 			g.write(&b, k, &flat)
 		}
 	} else {
-		b.WriteString("<html lang=\"en\">\n<head>\n<meta charset=\"utf-8\">\n<title>Generated page &amp; title</title>\n")
+		if g.opt.XHTML {
+			b.WriteString("<html xmlns=\"http://www.w3.org/1999/xhtml\" lang=\"en\" xml:lang=\"en\">\n<head>\n<meta charset=\"utf-8\"/>\n<title>Generated page &amp; title</title>\n")
+		} else {
+			b.WriteString("<html lang=\"en\">\n<head>\n<meta charset=\"utf-8\">\n<title>Generated page &amp; title</title>\n")
+		}
 		if g.chance(0.4) {
 			u := g.newUnitFront("style", Noise)
-			fmt.Fprintf(&b, "<style>\nbody { margin: 0 } /* %s */ .nav > a::after { content: \"%s\" }\n</style>\n", u.Token, u.Token)
+			fmt.Fprintf(&b, "<style>\nbody { margin: 0 } /* %s */ .nav a::after { content: \"%s\" }\n</style>\n", u.Token, u.Token)
 			g.feat("noise:head-style")
 		}
 		if g.chance(0.4) {
 			u := g.newUnitFront("script", Noise)
-			fmt.Fprintf(&b, "<script>var cfg = {id: \"%s\", html: \"<li>%s</li>\"};</script>\n", u.Token, u.Token)
+			if g.opt.XHTML {
+				fmt.Fprintf(&b, "<script>var cfg = {id: \"%s\", html: \"%s\"};</script>\n", u.Token, u.Token)
+			} else {
+				fmt.Fprintf(&b, "<script>var cfg = {id: \"%s\", html: \"<li>%s</li>\"};</script>\n", u.Token, u.Token)
+			}
 			g.feat("noise:head-script")
 		}
 		b.WriteString("</head>\n")
